@@ -19,7 +19,7 @@ def run_c06(tier, seed):
     # (flavour, mode, n per kind, extra args, workers per kind)
     plan = [
         ("opt", "free", 3000 if quick else 80000, [], 2 if quick else 4),
-        ("san", "free", 600 if quick else 12000, ["--typeset1"], 2 if quick else 4),
+        ("san", "free", 3000 if quick else 40000, ["--typeset1"], 2 if quick else 4),
         ("san", "sched2", 40 if quick else 320, ["--max-sched", "400" if quick else "3000"], 2 if quick else 4),
         ("san", "sched3", 8 if quick else 80, ["--max-sched", "400" if quick else "2000"], 1 if quick else 4),
         ("san", "schedr", 6 if quick else 120, ["--nrandom", "30" if quick else "100"], 1 if quick else 4),
